@@ -243,6 +243,44 @@ def main():
         add("urban", lab, [mean, emax, 2 * me * bsq * gam * gam, bsq], [0.0], [None], [], dcap=4000,
             nn=max(1000, n // 10))
 
+    # ---- EnergyLossHelper + the fluctuation model it selects (none/gamma/gaussian/urban): the law clause is
+    #      the models' defining property "sample mean = requested mean loss" (no oracle input needed; the
+    #      bracket comes from the sample variance), over a sweep that reaches every selection branch and the
+    #      Urban excitation on/off x ionisation slow/fast combinations (the trace spec derives the branch
+    #      from ranks of the compared quantities; the driver fails as Broken if one is never reached)
+    REFS["elhelper"] = ("no oracle: E[loss] = requested mean loss (documented defining property of the "
+                        "fluctuation models), bracket 6 s/sqrt(N) + 1e-3 mean from the sample variance")
+    H, AR, PB = 0, 1, 2
+    E, MU = 0, 1
+    for lab, part, t, mean, step, cut, mat in [
+            ("none-mean", E, 1.0, 5e-6, 1e-4, 1e-3, AR),
+            ("none-emax", E, 1.5e-5, 1.2e-5, 1e-6, 1e-3, AR),
+            ("e100MeV-fast", E, 100.0, 1e-2, 1e-2, 1e-3, AR),
+            ("e1MeV-fast", E, 1.0, 2e-3, 1e-3, 1e-3, AR),
+            ("e1MeV-slow", E, 1.0, 2e-4, 1e-4, 1e-3, AR),
+            ("e1MeV-cut10keV", E, 1.0, 3e-3, 1e-3, 1e-2, AR),
+            ("e700eV-onelevel", E, 7e-4, 1e-4, 1e-6, 1e-3, AR),
+            ("e300eV-excoff", E, 3e-4, 5e-5, 1e-6, 1e-3, AR),
+            ("e100eV-excoff", E, 1e-4, 3e-5, 1e-7, 1e-3, AR),
+            ("mu5keV-excoff-slow", MU, 5e-3, 2e-4, 1e-5, 1e-3, AR),
+            ("mu5keV-excoff-fast", MU, 5e-3, 8e-4, 4e-5, 1e-3, AR),
+            ("mu2keV-excoff", MU, 2e-3, 1e-4, 1e-5, 1e-3, AR),
+            ("mu50keV-onelevel-fast", MU, 5e-2, 5e-3, 1e-4, 1e-3, AR),
+            ("mu50keV-onelevel-slow", MU, 5e-2, 5e-4, 1e-5, 1e-3, AR),
+            ("mu100MeV-tmax", MU, 100.0, 5e-2, 1e-2, 1e-3, AR),
+            ("mu100MeV-kappa", MU, 100.0, 5e-3, 1e-3, 1e-3, AR),
+            ("mu1MeV-gaussian", MU, 1.0, 0.3, 1e-3, 1.0, AR),
+            ("mu1MeV-gamma-k<1", MU, 1.0, 0.3, 5e-2, 1.0, AR),
+            ("mu1MeV-gamma-k>1", MU, 1.0, 0.3, 2e-2, 1.0, AR),
+            ("e10MeV-Pb", E, 10.0, 2e-2, 2e-3, 1e-2, PB),
+            ("e10keV-Pb-onelevel", E, 1e-2, 1e-3, 1e-5, 1e-3, PB),
+            ("e1keV-Pb-excoff", E, 1e-3, 2e-4, 1e-6, 1e-3, PB),
+            ("mu20keV-Pb-excoff", MU, 2e-2, 2e-3, 1e-5, 1e-3, PB),
+            ("e1MeV-H", E, 1.0, 1e-3, 1e-2, 1e-3, H),
+            ("e30eV-H", E, 3e-5, 1.2e-5, 1e-6, 1e-3, H),
+            ("mu1keV-H", MU, 1e-3, 1e-4, 1e-5, 1e-3, H)]:
+        add("elhelper", lab, [part, t, mean, step, cut, mat], [0.0], [None], [], dcap=4000)
+
     # ---- Moller / Bhabha energy fraction
     REFS["moller"] = ("Geant4 PRM Moller: pdf ~ 1/e^2 - t/e + (1-t) + 1/(1-e)^2 - t/(1-e), t = (2g-1)/g^2, on "
                       "[Emin/E, 1/2]; closed-form antiderivative, quantiles by brentq")
